@@ -20,6 +20,7 @@ def subchecks(c):
         return False
     n, steps = (40, 40) if c.tier == "quick" else (300, 60)
     S.walked(c, c.pid, binary, "c12sm", n, steps, CLAUSES, classify)
+    S.run_scenarios(c, binary, "c12sm", CLAUSES, classify)
     if not proved and not c.violations:
         b = getattr(c, "broken", {"file": "?", "log": ""})
         c.fail_obligation("Properties/C12sm.v (%s)" % b["file"], b["log"])
